@@ -30,7 +30,10 @@ def lattices(ctx, rng):
            ("hso1", eg.hex_square_oct_lattice(1)), ("trinon1", eg.tri_non_lattice(1)), ("trinon2", eg.tri_non_lattice(2)),
            ("square22", eg.square_lattice(2, 2)), ("square23", eg.square_lattice(2, 3)), ("tutte", eg.tutte_graph()),
            ("two_triangles", eg.two_triangles()), ("star", eg.star_lattice_sheared()[0]), ("ladder5", eg.n_ladder(5)),
-           ("wheel6", eg.higher_coordination_number_example(6)), ("bridge", eg.bridge_graph())]
+           ("wheel6", eg.higher_coordination_number_example(6)), ("bridge", eg.bridge_graph()),
+           # three and four parallel bonds between the same two sites, all stored in the same orientation
+           ("two_site_torus", zoo.two_site_torus()), ("multi_graph", eg.multi_graph()), ("brick_wall42", zoo.brick_wall(4, 2)),
+           ("triple_bond", Lattice(np.array([[0.3, 0.4], [0.7, 0.6]]), np.array([[0, 1], [0, 1], [0, 1]]), np.array([[0, 0], [-1, 0], [0, -1]])))]
     for N in ([2, 2, 3, 4, 6, 10, 16] if quick else [2, 2, 2, 3, 3, 4, 5, 6, 8, 10, 16, 25, 40]):
         l = zoo.voronoi(rng, N)
         out.append((f"vor{N}", l))
